@@ -1,7 +1,9 @@
 use std::collections::HashMap;
-use shared::rule::Rule;
+use shared::dictionary::Dictionary;
+use shared::rule::{FilterCondition, Rule};
 use shared::terms::{Term, TriplePattern};
 use shared::triple::Triple;
+use crate::reasoning::rules::evaluate_filters;
 use crate::reasoning::Reasoner;
 
 fn unify_patterns(
@@ -141,8 +143,38 @@ fn rename_rule_variables(rule: &Rule, counter: &mut usize) -> Rule {
         premise: new_premise,
         negative_premise: vec![],
         conclusion: new_conclusions,
-        filters: rule.filters.clone(),
+        // filters speak about the renamed variables
+        filters: rule
+            .filters
+            .iter()
+            .map(|filter| FilterCondition {
+                variable: var_map
+                    .get(&filter.variable)
+                    .cloned()
+                    .unwrap_or_else(|| filter.variable.clone()),
+                operator: filter.operator.clone(),
+                value: var_map
+                    .get(&filter.value)
+                    .cloned()
+                    .unwrap_or_else(|| filter.value.clone()),
+            })
+            .collect(),
     }
+}
+
+/// The rule's filters hold under `bindings` (variables resolved to constants).
+fn filters_hold(filters: &Vec<FilterCondition>, bindings: &HashMap<String, Term>, dict: &Dictionary) -> bool {
+    if filters.is_empty() {
+        return true;
+    }
+    let ground: HashMap<String, u32> = bindings
+        .keys()
+        .filter_map(|name| match resolve_term(&Term::Variable(name.clone()), bindings) {
+            Term::Constant(id) => Some((name.clone(), id)),
+            _ => None,
+        })
+        .collect();
+    evaluate_filters(&ground, filters, dict)
 }
 
 /// Smallest counter value such that no name `v<n>` with `n >= value` occurs as a
@@ -223,7 +255,13 @@ impl Reasoner {
                         }
                         premise_results = new_premise_results;
                     }
-                    results.extend(premise_results);
+                    // a rule instance counts only if its filters accept it
+                    let dict = self.dictionary.read().unwrap();
+                    results.extend(
+                        premise_results
+                            .into_iter()
+                            .filter(|b| filters_hold(&renamed_rule.filters, b, &dict)),
+                    );
                 }
             }
         }
